@@ -121,3 +121,21 @@ func neighbourWarmup(r *rand.Rand, rec *ersctl.Reconciler, sw *switchClient, obj
 		_, _ = rec.Reconcile(context.TODO(), reconcile.Request{NamespacedName: types.NamespacedName{Namespace: ns, Name: rs.Name}})
 	})
 }
+
+// listFaultClient makes the n-th List call (counting from 0) fail: a read fault in the middle of a
+// reconcile (API server overloaded, cache not synced).  Decisions taken after a failed read must not
+// silently fall back on something else.
+type listFaultClient struct {
+	client.Client
+	failAt int
+	count  int
+}
+
+func (l *listFaultClient) List(ctx context.Context, list client.ObjectList, opts ...client.ListOption) error {
+	k := l.count
+	l.count++
+	if k == l.failAt {
+		return injectedErr("list", "objects")
+	}
+	return l.Client.List(ctx, list, opts...)
+}
